@@ -59,7 +59,9 @@ for n in names:
     caught = 'exit=1' in out and 'VIOLATION' in out
     sigs = sorted({l.split('sig=')[1].split()[0] for l in out.splitlines() if 'sig=' in l})[:6]
     verdict = 'CAUGHT' if caught else 'MISSED'
-    meta['detected_by'] = {'check': prop, 'tier': 'quick', 'caught': caught, 'signatures': sigs,
+    import re
+    hits = sum(int(x) for x in re.findall(r'sig=\S+ count=(\d+)', out))      # failing cases of the quick run (all signatures)
+    meta['detected_by'] = {'check': prop, 'tier': 'quick', 'caught': caught, 'signatures': sigs, 'failing_cases': hits,
                            'command': 'tools/run_seeded.sh %s %s' % (n, prop)}
     if not caught and meta.get('cross_checks'):
         # the change needs a history that lies outside the quantification of its own property's check (several
@@ -80,6 +82,6 @@ for n in names:
                                               'fix: commit made usim robust against it, it no longer breaks the property' % head)
     json.dump(meta, open(os.path.join(d, 'meta.json'), 'w'), indent=1)
     rows.append((n, prop, verdict, sigs))
-    print('%-8s %s %-11s %s' % (n, prop, verdict, ', '.join(sigs)), flush=True)
+    print('%-8s %s %-11s %5s  %s' % (n, prop, verdict, meta['detected_by'].get('failing_cases', ''), ', '.join(sigs)), flush=True)
 print('caught %d of %d still valid (%d neutralised by later fixes)' % (
     sum(1 for r in rows if r[2] == 'CAUGHT'), sum(1 for r in rows if r[2] != 'NEUTRALISED'), sum(1 for r in rows if r[2] == 'NEUTRALISED')))
